@@ -42,3 +42,4 @@ CFG = {'level': 'exploration',
                  'operations receive valid arguments only; Cleanup is called before every bulk set and at the end',
                  'no leading comment on retract blocks in generated files (domain restriction, see known findings)']}
 CFG['level_text'] += ' Replace targets include the bare `.` and `..`; rationales include ones beginning with an empty line.'
+CFG['level_text'] += ' Untagged require lines now and then end in a comment holding nothing but blanks.'
